@@ -38,8 +38,22 @@ func docA(i int) sl.Doc {
 
 var universe = []int{1, 2, 3, 4}
 
+// padFor returns the length of a "pad" string that makes docA(2) merged with
+// {pad: ...} encode to exactly total bytes.
+func padFor(total int) int {
+	for n := 0; n <= total; n++ {
+		d := sl.Canon(docA(2))
+		d["pad"] = strings.Repeat("p", n)
+		if len(sl.Encode(d)) >= total {
+			return n
+		}
+	}
+	panic("no pad length")
+}
+
 func symbols() *sl.Symbols {
 	big := strings.Repeat("z", maxPointSize)
+	exact := padFor(maxPointSize)
 	return sl.NewSymbols(
 		sl.Op{Name: "ins[u1]", Kind: "ins", Ids: []int{1}, Docs: []sl.Doc{docA(1)}},
 		sl.Op{Name: "ins[u2]", Kind: "ins", Ids: []int{2}, Docs: []sl.Doc{docA(2)}},
@@ -55,6 +69,14 @@ func symbols() *sl.Symbols {
 		sl.Op{Name: "upd[u3:{gone:_delete,k:2}]", Kind: "upd", Ids: []int{3}, Docs: []sl.Doc{{"gone": "_delete", "k": int64(2)}}},
 		sl.Op{Name: "upd[u3:{k:_delete}]", Kind: "upd", Ids: []int{3}, Docs: []sl.Doc{{"k": "_delete", "extra": "_delete"}}},
 		sl.Op{Name: "upd[]", Kind: "upd"},
+		// size boundary: with u2 = docA(2) the merged document is exactly MaxPointSize (accepted) / one byte over
+		sl.Op{Name: "upd[u2:{pad:=max}]", Kind: "upd", Ids: []int{2}, Docs: []sl.Doc{{"pad": strings.Repeat("p", exact)}}},
+		sl.Op{Name: "upd[u2:{pad:=max+1}]", Kind: "upd", Ids: []int{2}, Docs: []sl.Doc{{"pad": strings.Repeat("p", exact+1)}}},
+		// the same id twice in one batch: merges apply in order
+		sl.Op{Name: "upd[u1:{a:1,k:_delete},u1:{k:9,s:Z}]", Kind: "upd", Ids: []int{1, 1}, Docs: []sl.Doc{{"a": int64(1), "k": "_delete"}, {"k": int64(9), "s": "Z"}}},
+		sl.Op{Name: "del{u2,u2}", Kind: "del", Ids: []int{2, 2}},
+		// the marker is shallow: inside a nested map it is an ordinary value
+		sl.Op{Name: "upd[u1:{n:{x:_delete}}]", Kind: "upd", Ids: []int{1}, Docs: []sl.Doc{{"n": sl.Doc{"x": "_delete"}}}},
 		sl.Op{Name: "upd[u2:{big}]", Kind: "upd", Ids: []int{2}, Docs: []sl.Doc{{"big": big}}},
 		sl.Op{Name: "upd[u2:{txt,flat},u3:{a:1}]", Kind: "upd", Ids: []int{2, 3}, Docs: []sl.Doc{{"txt": "lazy dog", "flat": []float32{9, 9}}, {"a": int64(1), "vec": []float32{0.5, 0.5}}}},
 		sl.Op{Name: "del{u1}", Kind: "del", Ids: []int{1}},
@@ -83,7 +105,7 @@ func factory(raw json.RawMessage) (seqx.System, error) {
 }
 
 func master(cfg *harness.Config, rep *harness.Report) {
-	rep.Rule = "breadth-first search over histories of insert/update/delete batches (20-symbol alphabet incl. empty, duplicate-id, existing-id, unknown-id, oversized, nested and _delete batches) on the real shard; after every batch: returned error/ids vs the plain-map model, reported count, read of every id, select-all, and the raw points/internal buckets (bijection, counters, free list). evaluations = individual comparisons; states = distinct (model, point-store abstraction) pairs"
+	rep.Rule = "breadth-first search over histories of insert/update/delete batches (25-symbol alphabet incl. empty, duplicate-id (insert, update, delete), existing-id, unknown-id, exactly-at / one-over the size limit, nested and _delete batches) on the real shard; after every batch: returned error/ids vs the plain-map model, reported count, read of every id, select-all, and the raw points/internal buckets (bijection, counters, free list). evaluations = individual comparisons; states = distinct (model, point-store abstraction) pairs"
 	rep.Assumptions = []string{"documents are maps as the HTTP layer produces them", "which freed node id is reused first depends on Go map iteration and is not enumerated", "bbolt commit atomicity"}
 	p := pool.New(pool.Options{CPUsPerWorker: 2, JobTimeout: 30 * time.Second})
 	syms := symbols()
